@@ -65,7 +65,7 @@ def main():
         failed = "FAILED" in out or "failed;" in out and any(" 0 failed" not in l for l in out.splitlines())
         rec["tests_with_mutation"] = {"passed": passed, "output": out.strip().splitlines()}
         if demo == "demo.sh":
-            rc_m, out_m = sh("sh %s" % os.path.join(mdir, demo), cwd=REPO, timeout=600)
+            rc_m, out_m = sh("bash %s" % os.path.join(mdir, demo), cwd=REPO, timeout=600)
             rec["demo_with_mutation_exit"] = rc_m
         elif demo == "demo_test.rs":
             shutil.copy(os.path.join(mdir, demo), os.path.join(REPO, "tests", "zz_demo_test.rs"))
@@ -87,7 +87,7 @@ def main():
             sh("git checkout -q -- . ", cwd=REPO)
         if demo == "demo.sh":
             sh("cargo build --offline 2>&1 | tail -1", cwd=REPO)
-            rc_c, out_c = sh("sh %s" % os.path.join(mdir, demo), cwd=REPO, timeout=600)
+            rc_c, out_c = sh("bash %s" % os.path.join(mdir, demo), cwd=REPO, timeout=600)
             rec["demo_clean_exit"] = rc_c
         elif demo == "demo_test.rs":
             rc_c, out_c = sh("cargo test --offline --test zz_demo_test 2>&1 | tail -5", cwd=REPO, timeout=900)
